@@ -52,6 +52,9 @@ func oracleC15(ctx *harness.Ctx, cs *harness.Case) (ds []harness.Discrepancy) {
 		c15Survive(cs, add)
 		return
 	}
+	if cs.Entry == "QuoteSQLIdent" && s == "" {
+		return // the property quantifies over non-empty names only (the native fuzz leg hands the oracle arbitrary inputs)
+	}
 	var out string
 	o := guarded(func() ([]astNode, error) {
 		switch cs.Entry {
